@@ -474,22 +474,29 @@ func (e *Engine) havocItem(st *State, env *SpecEnv, item string) {
 			if id, ok := v.V.Fs[0].T.intVal(); ok && id.IsInt64() && typeIDTypes[id.Int64()] != nil {
 				dt := typeIDTypes[id.Int64()]
 				before := st.allocTerm()
+				if x.Fn == "dynfresh" {
+					// reserve the allocation window of the decoded references first, so that the type facts of the
+					// havocked fields (allocated: below the allocation counter) admit the fresh objects
+					if pt, ok := dt.Underlying().(*types.Pointer); ok && !isBigInt(pt.Elem()) && kindOf(pt.Elem()) != kOpaque {
+						for _, l := range leaves(pt.Elem()) {
+							if (l.typ != nil && kindOf(l.typ) == kRef) || strings.HasSuffix(l.path, "#arr") {
+								st.allocN++
+							}
+						}
+					}
+				}
 				e.havocObject(st, Val{T: v.V.Fs[1].T}, dt)
 				if x.Fn == "dynfresh" {
 					if pt, ok := dt.Underlying().(*types.Pointer); ok && !isBigInt(pt.Elem()) && kindOf(pt.Elem()) != kOpaque {
 						nv := st.load(derefPlace(v.V.Fs[1].T, dt))
 						ls := leaves(pt.Elem())
 						ts := nv.flat()
-						n := 0
 						for i, l := range ls {
 							isRef := (l.typ != nil && kindOf(l.typ) == kRef) || strings.HasSuffix(l.path, "#arr")
 							if isRef {
-								n++
-								st.allocN++
 								st.assume(Or(Eq(ts[i], IntLit(0)), And(Ge(ts[i], before), Lt(ts[i], st.allocTerm()))))
 							}
 						}
-						_ = n
 						// one level deeper for maps of slices: the decoded slices have fresh backing arrays too
 						if mt, ok := pt.Elem().Underlying().(*types.Map); ok {
 							if _, isSl := mt.Elem().Underlying().(*types.Slice); isSl && kindOf(mt.Elem()) == kSlice {
